@@ -46,6 +46,7 @@ compare(const ByteBuffer *b, const unsigned char *mem, const struct model *m, co
                 byte_buffer_rest(b), m->size - m->used, m->used - m->offset);
 }
 
+static int add_from_self;
 enum { OP_ADD, OP_CONSUME, OP_ATMOST, OP_REWIND, OP_RESET, OP_CLEAR, OP_REPEAT, NOPS };
 static const char *opname[] = { "add", "consume", "consume_at_most", "rewind", "reset", "clear", "repeat" };
 
@@ -63,7 +64,9 @@ step(ByteBuffer *b, unsigned char *mem, struct model *m, int op, size_t n, const
     int image_fixed = 0;
     switch (op) {
     case OP_ADD: {
-        unsigned char *s = vh_arena_copy(src, n);
+        /* the octets to append may come from the buffer's own memory (its first n octets, which do not overlap
+         * the free space behind the filled region): src holds a copy of them then */
+        unsigned char *s = add_from_self ? b->data : vh_arena_copy(src, n);
         int rc = byte_buffer_add(b, s, n);
         if (m->used + n > m->size) {
             VH_COUNT("add refused (insufficient space)");
@@ -462,8 +465,15 @@ u_history(uint64_t idx, void *arg)
                     next++;
                 }
             }
+            add_from_self = 0;
+            if (op == OP_ADD && n > 0 && n <= m.used && n <= m.size - m.used && vh_chance(&r, 1, 3)) {
+                memcpy(src, m.img, n);
+                add_from_self = 1;
+                VH_COUNT("add whose source is the buffer's own filled region");
+            }
             uint64_t fails_before = *vh_nfail;
             step(&b, mem, &m, op, n, src, "history");
+            add_from_self = 0;
             if (*vh_nfail != fails_before) {
                 /* re-synchronise the model so that one defect is reported once, not as a cascade */
                 if (!(b.offset <= b.used && b.used <= b.size && b.size == size && b.data == mem))
@@ -497,7 +507,8 @@ harness_run(void)
                                  "rewind with everything consumed", "rewind at offset 0", "reset", "clear", "repeat",
                                  "set accepted", "set refused", "use/space checked",
                                  "history: buffer size above 254", "set-up with values at the extremes of size_t",
-                                 "consume that must be refused, without a destination" };
+                                 "consume that must be refused, without a destination",
+                                 "add whose source is the buffer's own filled region" };
     for (size_t i = 0; i < sizeof req / sizeof req[0]; i++)
         vh_require(req[i]);
 }
